@@ -71,8 +71,12 @@ def gen_enum(rng, idx, module_default_case):
             v = max(lo, min(hi, i))
         elif r < 0.5 and values:
             v = rng.choice(values)["value"]  # duplicate value
-        elif r < 0.7:
+        elif r < 0.62:
             v = rng.choice([lo, hi, max(lo, min(hi, -1)), max(lo, min(hi, 0)), max(lo, min(hi, 1))])
+        elif r < 0.8:
+            # the 2^k edges of the C++ integer types, whatever the enum's own range (literal rendering differs there)
+            k = rng.choice([7, 8, 15, 16, 31, 31, 32, 63])
+            v = max(lo, min(hi, rng.choice([1, -1]) * (1 << k) + rng.choice([0, 0, -1, 1])))
         else:
             v = rng.randint(max(lo, -1000), min(hi, 1000)) if rng.random() < 0.6 else rng.randint(lo, hi)
         if not eff_signed and is_signed_attr is None and v < 0:
